@@ -8,7 +8,7 @@ struct Rock { virtual ~Rock(){} };            // never registered
 register_classes(Animal, Dog);
 declare_method(int, kick, (virtual_ptr<Animal>));
 define_method(int, kick, (virtual_ptr<Dog>)) { return 1; }
-int main(){ update();
+int main(int argc, char**){ update();
  set_error_handler([](const error_type& e){ std::cerr << "handler called, alternative " << e.index() << "\n"; });
- Rock r; virtual_ptr<Rock> p(r); std::cerr << "ctor: no report, vptr=" << (const void*)p._vptr() << "\n";
+ Rock r; if (argc == 1) { virtual_ptr<Rock> p(r); std::cerr << "ctor: no report, vptr=" << (const void*)p._vptr() << "\n"; }   // any argument: skip to final
  auto f = final_virtual_ptr(r);  std::cerr << "final: no report, vptr=" << (const void*)f._vptr() << "\n"; }
